@@ -110,8 +110,8 @@ func parseContractFile(P *Program, pkg *packages.Package, f *ast.File, name stri
 				}
 				P.Macros[pkg.Types.Name()+"."+mname] = &Macro{Params: parseNameList(rest[i : j+1]), Body: cl, Pkg: pkg}
 				cur = nil
-			case "func", "iface":
-				cur = &Contract{Pkg: pkg, File: name, Line: line, IsIface: word == "iface"}
+			case "func", "iface", "funcval":
+				cur = &Contract{Pkg: pkg, File: name, Line: line, IsIface: word == "iface" || word == "funcval"}
 				head := rest
 				if i := strings.Index(head, "returns"); i >= 0 {
 					cur.Results = parseNameList(head[i+len("returns"):])
@@ -122,7 +122,9 @@ func parseContractFile(P *Program, pkg *packages.Package, f *ast.File, name stri
 					head = strings.TrimSpace(head[:i])
 				}
 				cur.Key = pkg.Types.Name() + "." + head
-				if cur.IsIface {
+				if word == "funcval" {
+					cur.Key = "funcval:" + pkg.Types.Name() + "." + head
+				} else if cur.IsIface {
 					if strings.Count(head, ".") >= 2 {
 						cur.Key = "iface:" + head
 					} else {
